@@ -34,7 +34,7 @@ class Unit:
                  abstract=None, module_consts=None, safety=('index', 'div'), trusted=False, short=None,
                  doc='', while_bound=6, fresh_attr=None, canary=None, timeout_ms=8000, defaults=None,
                  exec_cls=None, self_class=None, cases=None, store='ite', sum_split=False, native_obj=None,
-                 native_call=None, variant=None, yields=None, fresh_result=False, setup=None):
+                 native_call=None, variant=None, yields=None, fresh_result=False, setup=None, history_fixed=()):
         self.props = [props] if isinstance(props, str) else list(props)
         self.qualname = qualname
         # several units may put the same function under contract (e.g. Contribution.prepare once per subclass whose
@@ -76,6 +76,9 @@ class Unit:
         # the caller owns the result: it is a new object (sym: allocated during the call; native: the result of one call
         # is modified in place and the call repeated -- the contract must hold again)
         self.fresh_result = fresh_result
+        # inputs that describe what the OBJECT is (fixed at its construction: a table's own grid, a binner's target grid);
+        # later calls of a history on the same object keep them -- an object does not turn into another one between calls
+        self.history_fixed = tuple(history_fixed)
         # scenario units: setup(ex, st, c) runs REAL code of the repository on the initial state before the function under
         # contract (e.g. the constructor, symbolically, to obtain the object the method is then called on)
         self.setup = setup
@@ -769,6 +772,10 @@ def random_falsify(unit, seed, n):
                 _scramble(prev[2])
             else:
                 vals = unit.gen(rng)
+            if mode != 'fresh' and unit.history_fixed:
+                for k in unit.history_fixed:
+                    if k in prev[0]:
+                        vals[k] = copy.deepcopy(prev[0][k])
         except Exception:
             continue
         keep = {}
